@@ -57,6 +57,22 @@ Example C07_header_reprint_examples :
     async def cache(self, key) -> Dict[str, int]:".
 Proof. split; vm_compute; reflexivity. Qed.
 
+(* The other header edit, maybe_replace_function_return_type.  Removing the annotation keeps a prefix of the header and ends it
+   with one colon (whatever followed the last "->", a trailing comment included, is dropped); adding one to a header that
+   ends with its colon inserts " -> type" in front of that colon and touches nothing else. *)
+Theorem C07_return_removed_shape : forall s, exists p t, remove_return_typ s = p ++ s2l ":" /\ s = p ++ t.
+Proof. exact remove_return_typ_shape. Qed.
+Print Assumptions C07_return_removed_shape.
+Theorem C07_return_added : forall h rt, add_return_typ (h ++ s2l ":") rt = h ++ s2l " -> " ++ rt ++ s2l ":".
+Proof. exact add_return_typ_spec. Qed.
+Print Assumptions C07_return_added.
+Example C07_return_examples :
+  retype_header (s2l "def f(a, b=1) -> int:") (Some (s2l "int")) None = Some (s2l "def f(a, b=1):")
+  /\ retype_header (s2l "def f(a, b=1):") None (Some (s2l "str")) = Some (s2l "def f(a, b=1) -> str:")
+  /\ retype_header (s2l "    async def g(x: int) -> List[int]:") (Some (s2l "List[int]")) (Some (s2l "bool")) = Some (s2l "    async def g(x: int) -> bool:")
+  /\ retype_header (s2l "def f(a) -> int:  # why") (Some (s2l "int")) None = Some (s2l "def f(a):").
+Proof. repeat split; vm_compute; reflexivity. Qed.
+
 (* Failure atomicity.  doctrans_order (Gen/DoctransOrder.v) is the list of calls of cdd/compound/doctrans.py:doctrans
    in evaluation order, regenerated from the source on every run.  Whichever package call raises, no open-for-write
    has been executed before it: the file on disk is still the original. *)
